@@ -693,6 +693,15 @@ def assemble(unit_path, repo=REPO):
                 body, nd = rsx.slice_acc(body, acc, keep)
                 asm.manual.append('%s: append-only accumulator slice w.r.t. %s (%d appending statements dropped; see rsx.slice_acc)' % (fnrec.key, keep, nd))
                 rw.note('program-slice-append-only', 1)
+            if opts.get('absfmt'):
+                body, na = rsx.abs_format_args(body)
+                asm.manual.append('%s: format! argument abstraction (%d computed arguments replaced by vx::any_arg(); see rsx.abs_format_args)' % (fnrec.key, na))
+                rw.note('abstract-format-args', 1)
+            if opts.get('havoc'):
+                body = rw.let_chains(body)
+                body, nh, nd = rsx.havoc_guards(body)
+                asm.manual.append('%s: guard abstraction (%d non-`let` conditions replaced by vx::havoc(), %d dead top-level statements dropped; see rsx.havoc_guards)' % (fnrec.key, nh, nd))
+                rw.note('havoc-guards', 1)
             for old, new in contract['bodyrep']:
                 if old not in body:
                     # the construct this rewrite was written for is gone: nothing to rewrite; the verifier decides on what is there
